@@ -7,20 +7,22 @@ on every run.
 -/
 import CaddyModel.C17.Spec
 import CaddyModel.C17.Driver
+import CaddyModel.C17.OldModel
 
 namespace CaddyModel.C17
 
 /-- FULL STATEMENT (false on the unchanged tree):
     `∀ x, preservesTokens x` — "the formatted text tokenizes to the same tokens with the same
-    line grouping as the original".  Counter-example: a trailing `{` is dropped. -/
+    line grouping as the original".  Counter-example: the blank after an escaped brace is
+    dropped (`\\{ 200` ↦ `\\{200`: two tokens become one). -/
 theorem fmt_preserves_tokens_full_fails : ∃ x : List Rune, preservesTokens x = false :=
-  ⟨runes "a {", by decide⟩
+  ⟨runes "\\{ 200", by decide⟩
 
 /-- FULL STATEMENT (false on the unchanged tree):
     `∀ x, idempotentAt x` — "formatting is idempotent".
-    Counter-example: `a< <⏎<` ↦ `a<<⏎<` ↦ `a<<<`. -/
+    Counter-example: a lone backslash after `a {⏎`. -/
 theorem fmt_idempotent_full_fails : ∃ x : List Rune, idempotentAt x = false :=
-  ⟨runes "a< <\n<", by decide⟩
+  ⟨runes "a {\n\\", by decide⟩
 
 set_option maxRecDepth 1000000 in
 /-- every exported token-stream witness (one per known class) fails in the model -/
@@ -31,6 +33,55 @@ set_option maxRecDepth 1000000 in
 /-- every exported idempotence witness (one per known class) fails in the model -/
 theorem idem_witnesses_all_fail : idemWitnesses.all (fun s => !idempotentAt (runes s)) = true := by
   decide
+
+/-! ### the classes repaired in the fix round: their witnesses failed in the old code and pass now -/
+
+/-- witnesses of the token-stream classes retired by the formatter repairs -/
+def repairedTokenWitnesses : List String := [
+  "# `\n{\n\ta\n}\n"  /- backtick-in-comment -/,
+  "\"back`tick\" {\n}\n"  /- backtick-in-dquote -/,
+  "a <<EOF\n\t`\n\tEOF\nb {\n}\n"  /- backtick-in-heredoc -/,
+  "a`b {\n}\n"  /- backtick-in-word -/,
+  "a\rb\n"  /- cr-inside-word -/,
+  "a {\n"  /- dangling-open-brace-at-eof -/,
+  ""  /- empty-input -/,
+  "a#b \"x\n  y\"\n"  /- hash-in-word -/,
+  "`a#b` \"x\n  y\"\n"  /- special-in-backquote -/,
+  "a \\\n\"b  c\"\n"  /- special-right-after-line-continuation -/,
+  "`{ inner }`\n"  /- ws-or-brace-in-backquote -/
+]
+
+/-- witnesses of the idempotence classes retired by the repairs -/
+def repairedIdemWitnesses : List String := [
+  "#`\n\n{}"  /- backtick-in-comment -/,
+  "\"`\"\n{}"  /- backtick-in-dquote -/,
+  "<<EOF\n} `\nEOF\n {} \n"  /- backtick-in-heredoc -/,
+  "a`\n{}"  /- backtick-in-word -/,
+  "{\n{x}\u00a0\\\n\n}\nEOF"  /- blank-line-after-line-continuation -/,
+  "a#b \"a\n\tb {\n}\" \t\"tab\there\""  /- hash-in-word -/,
+  "`a#b` \"a\n\tb {\n}\"\n<<END\n  \"q\"\n  END"  /- special-in-backquote -/,
+  "EOF\\\n\"{x}# \n}}  \""  /- special-right-after-line-continuation -/,
+  "} \\\n\t\"}\""  /- token-after-close-brace-on-same-line -/,
+  "`\n{}`"  /- ws-or-brace-in-backquote -/
+]
+
+set_option maxRecDepth 1000000 in
+/-- non-vacuity of the repairs: each of these inputs changed its token stream under the OLD code -/
+theorem repaired_token_witnesses_old_code_fails :
+    repairedTokenWitnesses.all (fun s => !Old.preservesTokens (Old.runes s)) = true := by decide
+
+set_option maxRecDepth 1000000 in
+/-- … and keeps it under the repaired code -/
+theorem repaired_token_witnesses_now_pass :
+    repairedTokenWitnesses.all (fun s => preservesTokens (runes s)) = true := by decide
+
+set_option maxRecDepth 1000000 in
+theorem repaired_idem_witnesses_old_code_fails :
+    repairedIdemWitnesses.all (fun s => !Old.idempotentAt (Old.runes s)) = true := by decide
+
+set_option maxRecDepth 1000000 in
+theorem repaired_idem_witnesses_now_pass :
+    repairedIdemWitnesses.all (fun s => idempotentAt (runes s)) = true := by decide
 
 /-- non-vacuity of the spec predicates: they are TRUE on ordinary inputs -/
 example : preservesTokens (runes "a {\n  b\n}\n") = true ∧ idempotentAt (runes "a {\n  b\n}\n") = true := by decide
